@@ -171,6 +171,10 @@ pub const DLT_SERIAL_HEADER_SIZE: usize = 4; // just the pattern
 
 /// maximum size of a DLT message with a storage header:
 pub const DLT_MAX_STORAGE_MSG_SIZE: usize = DLT_STORAGE_HEADER_SIZE + u16::MAX as usize;
+/// Minimum amount of data that needs to be buffered (e.g. as `low_mark` for the `LowMarkBufReader`) so that the result of
+/// parsing a message does not depend on the amount of data buffered: the largest message plus the 4 bytes of the
+/// storage header pattern of the next message that the parser checks for its corrupt message heuristic.
+pub const DLT_MIN_PARSE_BUFFER_SIZE: usize = DLT_MAX_STORAGE_MSG_SIZE + 4;
 
 pub const DLT_MIN_STD_HEADER_SIZE: usize = 4;
 pub const MIN_DLT_MSG_SIZE: usize = DLT_STORAGE_HEADER_SIZE + DLT_MIN_STD_HEADER_SIZE;
